@@ -789,7 +789,31 @@ def rule_shared_bits(R):
     _r(R)
 
 
+def rule_shared_wire_layout(R):
+    """property block lengths, checked 16-bit length prefixes and the field order of every packet serializer (a packet whose fields are out of order or whose length prefix wrapped is not well-formed) -- C09's rules, evaluated here"""
+    from . import c09
+    c09.rule_props(R)
+    c09.rule_block(R)
+    c09.rule_len16(R)
+    c09.rule_connect(R)
+
+
+def rule_shared_qos_wiring(R):
+    """the QoS bits of a PUBLISH header and the decision to allocate and write a packet identifier come from the same (effective) QoS: flags that say QoS 1/2 on a packet without identifier are malformed -- C19's rule"""
+    from .c19 import rule_qos as _r
+    _r(R)
+
+
+def rule_shared_store(R):
+    """only whole packets: a packet the transport accepted in part keeps its entry and resumes at the recorded offset; it is flushed / marked sent only once written + count >= len -- C13's rule"""
+    from .c13 import rule_store as _r
+    _r(R)
+
+
 def run(R):
+    R.rule("store", rule_shared_store)
+    R.rule("qos-wiring", rule_shared_qos_wiring)
+    R.rule("wire-layout", rule_shared_wire_layout)
     R.rule("bits", rule_shared_bits)
     R.rule("id-nz", rule_nonzero_id)
     R.rule("varint", rule_varint)
